@@ -1096,6 +1096,16 @@ impl SequencerBlock {
         if !are_rollup_txs_included(&rollup_transactions, &rollup_transactions_proof, data_hash) {
             return Err(SequencerBlockError::rollup_transactions_not_in_sequencer_block());
         }
+        // The proof carried by each rollup's transactions is handed on unchanged to filtered blocks
+        // and Celestia rollup data, so it must prove inclusion under this block's root.
+        if !rollup_transactions.values().all(|rollup_transactions| {
+            super::do_rollup_transactions_match_root(
+                rollup_transactions,
+                header.rollup_transactions_root,
+            )
+        }) {
+            return Err(SequencerBlockError::rollup_transactions_not_in_sequencer_block());
+        }
         if !are_rollup_ids_included(rollup_transactions.keys(), &rollup_ids_proof, data_hash) {
             return Err(SequencerBlockError::invalid_rollup_ids_proof());
         }
